@@ -540,7 +540,7 @@ static bool runBatch(const Case& cs, Model* model, CholCtx* chol, int seed, int 
     }
     case S_FFT:
     {
-      // one simulation per call: simfft(nbsimu > 1) only returns the first one (finding of C13)
+      // one simulation per call, each with its own seed (simfft(nbsimu > 1) used to return only the first one)
       z.clear();
       for (int k = 0; k < nb; k++)
       {
